@@ -222,6 +222,47 @@ pub fn run(ctx: &'static Ctx) {
     );
     ctx.force_sample(json!({"state": 255, "op": "append", "slice": [255, 255], "expected_raw": 253}));
 
+    // ---- E3c: long slices (an implementation that sums a slice in a wider integer and folds it back must fold correctly)
+    let mut long: Vec<Vec<u8>> = vec![];
+    for len in [6usize, 16, 64, 127, 128, 129, 130, 131, 200, 255, 256, 257, 258, 300, 1000, 4096, 65_535, 65_536, 65_537, 300_000] {
+        for pat in 0..6u8 {
+            long.push((0..len).map(|i| match pat { 0 => 0xff, 1 => 0x80, 2 => 0x01, 3 => 0x7f, 4 => (i * 7 + 3) as u8, _ => if i % 2 == 0 { 0xff } else { 0x00 } }).collect());
+        }
+    }
+    let nl = AtomicU64::new(0);
+    long.par_iter().for_each(|sl| {
+        let mut local = 0;
+        for s in [0u8, 1, 0x7f, 0x80, 0xfe, 0xff] {
+            for act in [Act::Append(sl.clone()), Act::Delete(sl.clone()), Act::SinkVec(sl.clone())] {
+                let mut c = at(s);
+                apply(&mut c, &act);
+                let want = model_step(s as u64, &act) as u8;
+                local += 1;
+                if c.raw_value() != want {
+                    ctx.violation_sized(
+                        &format!("acc:long-slice:{}", act_name(&act)),
+                        sl.len() as u64,
+                        || format!("state {} {} of a {}-byte slice (first bytes {:02x?}) -> raw {} expected {}", s, act_name(&act), sl.len(), &sl[..4.min(sl.len())], c.raw_value(), want),
+                        || json!({"state": s, "op": act_name(&act), "slice_len": sl.len(), "first_bytes": &sl[..4.min(sl.len())]}),
+                    );
+                }
+            }
+            // slice-wise and byte-wise delivery of the same bytes agree; removing byte by byte what was appended restores the state
+            let mut a = at(s);
+            a.append(sl);
+            for b in sl {
+                a.sub(*b);
+            }
+            local += 1;
+            if a.raw_value() != s {
+                ctx.violation_sized("acc:long-slice:append-then-sub-each", sl.len() as u64, || format!("state {}: append of {} bytes then sub of each byte -> raw {}", s, sl.len(), a.raw_value()), || json!({"state": s, "slice_len": sl.len()}));
+            }
+        }
+        nl.fetch_add(local, std::sync::atomic::Ordering::Relaxed);
+    });
+    ctx.tr(nl.load(std::sync::atomic::Ordering::Relaxed));
+    ctx.engine("E3.long-slices", json!({"slices": long.len(), "lengths": "6..300000 incl. 127..131, 255..258, 65535..65537", "patterns": 6, "start_states": 6}));
+
     // ---- E1: stateright closure over the real object: exactly 256 states reachable, model agrees everywhere
     let acts: Vec<Act> = {
         let mut v = Vec::new();
